@@ -272,6 +272,81 @@ def scenario_gcf(run):
     return ok, detail
 
 
+def near_equal_corpus(run):
+    """fixed corpus, run on every check: a fitted curve whose setting is then
+    changed only slightly (nanometres, 1e-9 relative, bounds only, one option
+    of one step) must show the results of the NEW settings -- compared bit for
+    bit with a fresh curve"""
+    pipe = ["compute_tip_position", "correct_force_offset",
+            "correct_tip_offset"]
+
+    def params(idnt, edit):
+        p = idnt.get_initial_fit_parameters()
+        edit(p)
+        return p
+
+    def e_val(p):
+        p["E"].set(value=float(p["E"].value) * (1 + 1e-9))
+
+    def e_max(p):
+        p["E"].set(max=2000.0)
+
+    def e_min(p):
+        p["contact_point"].set(min=-1e-7)
+
+    def e_vary(p):
+        p["baseline"].set(vary=False)
+    changes = [
+        ("range_x shifted by 5 nm", {"range_x": [-2e-6, 1e-6]},
+         lambda i: {"range_x": [-2.005e-6, 1e-6]}),
+        ("range_x from [0, 0] to 5 nm", {"range_x": [0, 0]},
+         lambda i: {"range_x": [-5e-9, 5e-9]}),
+        ("range_x upper bound + 4 nm", {"range_x": (-1e-6, 5e-7)},
+         lambda i: {"range_x": (-1e-6, 5.04e-7)}),
+        ("weight_cp + 1e-9 relative", {"weight_cp": 1e-6},
+         lambda i: {"weight_cp": 1e-6 * (1 + 1e-9)}),
+        ("gcf_k + 1e-7", {"gcf_k": 1.0}, lambda i: {"gcf_k": 1.0000001}),
+        ("initial E + 1e-9 relative", {},
+         lambda i: {"params_initial": params(i, e_val)}),
+        ("upper bound of E only", {},
+         lambda i: {"params_initial": params(i, e_max)}),
+        ("lower bound of the contact point only", {},
+         lambda i: {"params_initial": params(i, e_min)}),
+        ("vary flag of the baseline only", {},
+         lambda i: {"params_initial": params(i, e_vary)}),
+        ("method_kws tolerance", {"method_kws": {"ftol": 1e-9}},
+         lambda i: {"method_kws": {"ftol": 1.1e-9}}),
+        ("one option of one preprocessing step", {},
+         lambda i: {"preprocessing": list(pipe), "preprocessing_options": {
+             "correct_tip_offset": {"method": "fit_constant_line"}}}),
+    ]
+    for via in ("fit_model", "setitem"):
+        for name, first, second in changes:
+            cols = m1.small_curve(11, n_app=100, n_ret=50)
+            idnt = curves.make_indentation(cols)
+            run.case({"corpus": name, "via": via}, kind="near-equal")
+            try:
+                idnt.apply_preprocessing(list(pipe))
+                idnt.fit_model(model_key="hertz_para", **first)
+                kw = second(idnt)
+                if via == "fit_model" or "preprocessing" in kw:
+                    idnt.fit_model(**kw)
+                else:
+                    for k, v in kw.items():
+                        idnt.fit_properties[k] = v
+                    idnt.fit_model()
+                why = compare_with_fresh(idnt, cols)
+            except BaseException as e:
+                why = f"raised {type(e).__name__}: {e}"
+            if why:
+                run.failing(SITE, f"near-equal:{name}:{via}",
+                            f"after changing only [{name}] (via {via}) the "
+                            f"visible results are not those of the stored "
+                            f"settings: {why}",
+                            payload={"kind": "near-equal", "name": name,
+                                     "via": via}, theorem="C03_valid")
+
+
 def check(run):
     run.sources = common.source_digests(["src/nanite/fit.py",
                                          "src/nanite/indent.py"])
@@ -298,6 +373,7 @@ def check(run):
     n = 40 if run.tier == "quick" else 500
     explore(run, n, "c03_hist")
     setitem_sweep(run)
+    near_equal_corpus(run)
     scenario_direct_edit(run)
     ok, detail = scenario_gcf(run)
     for k in run.known:
@@ -332,6 +408,9 @@ def replay(rec):
             pass
     if pl.get("kind") == "scenario":
         scenario_direct_edit(R())
+        return not R.bad
+    if pl.get("kind") == "near-equal":
+        near_equal_corpus(R())
         return not R.bad
     print("history replays are re-generated from the seed: run "
           "VERIF_SEED=%s ./check C03" % rec.get("seed"))
